@@ -245,11 +245,15 @@ impl Exec {
             }
             "fill_bytes" => {
                 let n = get_u64(op, "n") as usize;
+                // "off": the destination starts `off` bytes after an 8-byte boundary (default 0)
+                let off = op.get("off").and_then(|v| v.as_u64()).unwrap_or(0) as usize;
                 let inst = self.gen(op, "g");
                 // pre-fill with a sentinel so that bytes left unwritten are visible
-                let mut buf = vec![0xA5u8; n];
-                let ok = inst.fill_bytes(&mut buf);
-                out.push(("ret".into(), if ok { bytesj(&buf) } else { Value::Null }));
+                let mut store = vec![0xA5u8; n + off + 16];
+                let a = store.as_ptr().align_offset(8) + off;
+                let buf = &mut store[a..a + n];
+                let ok = inst.fill_bytes(buf);
+                out.push(("ret".into(), if ok { bytesj(buf) } else { Value::Null }));
             }
             "generate" => {
                 let inst = self.gen(op, "g");
@@ -258,18 +262,29 @@ impl Exec {
             "skip" => {
                 // advance far into the stream without recording it: `bytes` bytes are drawn through fill_bytes
                 // (64 KiB at a time), next_u32 or next_u64; what is recorded is an FNV-1a digest of all of them
-                let n = get_u64(op, "bytes");
+                // "bytes", or "kib" (units of 1024 bytes) for amounts beyond what a 32-bit reader of the trace can hold
+                let n = match op.get("kib").and_then(|v| v.as_u64()) {
+                    Some(k) => k * 1024,
+                    None => get_u64(op, "bytes"),
+                };
                 let via = op["via"].as_str().unwrap().to_string();
                 let inst = self.gen(op, "g");
+                let hashing = op.get("digest").and_then(|v| v.as_bool()).unwrap_or(true);
                 let mut h: u64 = 0xcbf29ce484222325;
                 let mut eat = |b: &[u8]| {
+                    if !hashing {
+                        return;
+                    }
                     for &x in b {
                         h ^= x as u64;
                         h = h.wrapping_mul(0x100000001b3);
                     }
                 };
                 let mut left = n;
-                let mut buf = vec![0u8; 65536];
+                let off = op.get("off").and_then(|v| v.as_u64()).unwrap_or(0) as usize;
+                let mut store = vec![0u8; 65536 + off + 16];
+                let a = store.as_ptr().align_offset(8) + off;
+                let buf = &mut store[a..a + 65536];
                 while left > 0 {
                     match via.as_str() {
                         "fill" => {
@@ -288,7 +303,9 @@ impl Exec {
                         }
                     }
                 }
-                out.push(("digest".into(), u64j(h)));
+                if hashing {
+                    out.push(("digest".into(), u64j(h)));
+                }
             }
             "jump" | "long_jump" => {
                 let inst = self.gen(op, "g");
@@ -370,6 +387,58 @@ impl Exec {
                 }
                 out.push(("scanned".into(), json!(n)));
                 out.push(("found".into(), Value::Array(found)));
+            }
+            "debug_scan" => {
+                // C17: the Debug text of a freshly seeded generator over very many seeds (k as 8 little-endian bytes,
+                // zero padded), optionally after `advance` native words.  Nothing is decided here: every distinct text
+                // comes back with example seeds, and differing seeds are then run as an ordinary schedule.
+                let kind = op["kind"].as_str().unwrap().to_string();
+                let n = get_u64(op, "n");
+                let len = get_u64(op, "seed_len") as usize;
+                let adv = op.get("advance").and_then(|v| v.as_u64()).unwrap_or(0);
+                let threads = op.get("threads").and_then(|v| v.as_u64()).unwrap_or(8).max(1);
+                let mut handles = Vec::new();
+                for t in 0..threads {
+                    let kind = kind.clone();
+                    handles.push(std::thread::spawn(move || {
+                        let mut texts: HashMap<String, (u64, Vec<u64>)> = HashMap::new();
+                        let mut k = t;
+                        while k < n {
+                            let mut seed = vec![0u8; len];
+                            let m = len.min(8);
+                            seed[..m].copy_from_slice(&k.to_le_bytes()[..m]);
+                            if let Built::Ok(mut g) = construct(&kind, Ctor::FromSeed(&seed)) {
+                                for _ in 0..adv {
+                                    let _ = g.next_u32();
+                                }
+                                let (a, b) = g.debug();
+                                let e = texts.entry(format!("{}\u{1}{}", a, b)).or_insert((0, Vec::new()));
+                                e.0 += 1;
+                                if e.1.len() < 3 {
+                                    e.1.push(k);
+                                }
+                            }
+                            k += threads;
+                        }
+                        texts
+                    }));
+                }
+                let mut all: HashMap<String, (u64, Vec<u64>)> = HashMap::new();
+                for h in handles {
+                    for (t, (c, ks)) in h.join().expect("debug_scan thread") {
+                        let e = all.entry(t).or_insert((0, Vec::new()));
+                        e.0 += c;
+                        for k in ks {
+                            if e.1.len() < 3 {
+                                e.1.push(k);
+                            }
+                        }
+                    }
+                }
+                let mut v: Vec<(String, (u64, Vec<u64>))> = all.into_iter().collect();
+                v.sort_by(|a, b| b.1 .0.cmp(&a.1 .0));
+                out.push(("scanned".into(), json!(n)));
+                out.push(("texts".into(), Value::Array(v.iter().take(6).map(|(t, (c, ks))| json!({"text": t.replace('\u{1}', " | "), "count": c, "seeds": ks})).collect())));
             }
             "eq" => {
                 let a = get_u64(op, "a");
